@@ -29,7 +29,7 @@ def flip_spin(i, samples):
                     Must be using the :math:`\sigma_i = 0, 1` convention.
     :type samples: torch.Tensor
     """
-    samples[..., i].sub_(1).abs_()
+    samples[..., i] = 1 - samples[..., i]  # also right for unsigned integer samples
     return samples
 
 
